@@ -12,7 +12,8 @@
      eri_pair_*          the same for a four-index array that is a Gram matrix over index PAIRS
      neg_charge_nsd      -q * G is negative semi-definite for q >= 0
      perturbation        |M_ab - G_ab| <= eps, G PSD  =>  c^T M c >= - n eps |c|^2
-     hankel3_psd_partial the one-centre moment functional is positive on squares up to degree 3
+     hankel_psd          the one-centre, one-axis moment functional is positive on squares (all degrees);
+                         polynomials with E(f g) form an ipspace (one_centre_gram_psd, one_centre_schwarz)
    plus the symmetry of the one-dimensional overlap and second-derivative (kinetic) primitives
    under exchange of the two functions (section Sym, generic field).
 
@@ -21,7 +22,7 @@
    ARE such semi-inner products on the span of the basis functions.  For functions on different
    centres this is a statement about integrals of positive kernels, not an algebraic consequence of
    the moment functional [E]. *)
-From Coq Require Import List Arith Lia Reals Lra Psatz.
+From Coq Require Import List Arith Lia Reals Lra Psatz RealField.
 From GB Require Import Base.Field Base.Tables Gauss.Moment1D Proofs.DiffOpP.
 Import ListNotations.
 Local Open Scope R_scope.
@@ -420,10 +421,13 @@ Qed.
 End Sym.
 
 (* ------------------------------------------------------------------------------------------ *)
-(* One centre, one primitive pair: the Gaussian moment functional is positive on squares.         *)
-(* PARTIAL: proved for polynomials of degree <= 3 (enough for one axis of two shells with          *)
-(* l_a + l_b <= 3 sharing a centre); the statement for every degree (the Hankel matrix             *)
-(* (m_{i+j}) of the moments m_{2k} = (2k-1)!! v^k is positive semi-definite) is not proved here.   *)
+(* One centre, one exponent pair, one axis: the Gaussian moment functional E (variance v >= 0) is   *)
+(* positive on squares, E(f f) >= 0 for EVERY polynomial f (every degree): the Hankel matrix           *)
+(* (m_{i+j}) of the moments m_{2k} = (2k-1)!! v^k is positive semi-definite.  Proof: the identity        *)
+(*     E(f g) = sum_k v^k / k! * E(f^(k)) * E(g^(k))                                                      *)
+(* (induction on f with Stein's lemma), whose right-hand side is a sum of squares for g = f.             *)
+(* Hence polynomials with <f, g> = E(f g) form an [ipspace]: for this case the bridge B3 is PROVED.      *)
+(* Not proved: the three-dimensional (tensor-product) and the several-centre / several-exponent cases.   *)
 (* ------------------------------------------------------------------------------------------ *)
 Definition RKg : Fops R :=
   mkFops R 0 1 Rplus Rmult Rminus Ropp Rdiv Rinv (fun _ _ => true) (fun _ _ => true)
@@ -433,17 +437,283 @@ Definition RKg : Fops R :=
 Fixpoint hank (v : R) (n : nat) (f g : list R) : R :=
   match f with [] => 0 | c :: f' => c * Eaux RKg v n g + hank v (S n) f' g end.
 
-Theorem hankel3_psd_partial (v c0 c1 c2 c3 : R) :
-  0 <= v -> 0 <= hank v 0 [c0; c1; c2; c3] [c0; c1; c2; c3].
+Lemma RKg_field : is_field RKg.
+Proof. exact Rfield. Qed.
+
+Section Hankel.
+Variable v : R.
+Notation Ea := (Eaux RKg v).
+Notation D := (pderiv RKg).
+Notation sh := (pshift RKg).
+Notation pad := (padd RKg).
+
+Lemma ofnat_INR k : ofnat RKg k = INR k.
 Proof.
-  intros Hv. unfold hank, Eaux, mom. cbn [mom2 fst snd ofnat RKg f0 f1 fadd fmul].
-  assert (E : forall x, x = (c0 + c2 * v) * (c0 + c2 * v) + 2 * (v * v) * (c2 * c2)
-                       + v * ((c1 + 3 * v * c3) * (c1 + 3 * v * c3)) + 6 * (v * v * v) * (c3 * c3) -> 0 <= x).
-  { intros x ->. assert (0 <= v * v) by nra. assert (0 <= v * v * v) by nra.
-    pose proof (Rle_0_sqr (c0 + c2 * v)) as A1. pose proof (Rle_0_sqr c2) as A2.
-    pose proof (Rle_0_sqr (c1 + 3 * v * c3)) as A3. pose proof (Rle_0_sqr c3) as A4. unfold Rsqr in *.
-    assert (0 <= 2 * (v * v) * (c2 * c2)) by nra.
-    assert (0 <= v * ((c1 + 3 * v * c3) * (c1 + 3 * v * c3))) by nra.
-    assert (0 <= 6 * (v * v * v) * (c3 * c3)) by nra. lra. }
-  apply E. ring.
+  induction k as [|k IH]; [reflexivity|]. rewrite S_INR. cbn [ofnat]. rewrite IH.
+  change (fadd RKg (f1 RKg) (INR k)) with (1 + INR k). ring.
+Qed.
+
+Fixpoint Dk (k : nat) (f : list R) : list R :=
+  match k with O => f | S k' => Dk k' (D f) end.
+
+Lemma Dk_nil k : Dk k [] = [].
+Proof. induction k as [|k IH]; [reflexivity|]. cbn [Dk]. exact IH. Qed.
+
+Lemma Dk_padd k f g : Dk k (pad f g) = pad (Dk k f) (Dk k g).
+Proof.
+  revert f g. induction k as [|k IH]; intros f g; [reflexivity|].
+  cbn [Dk]. rewrite (pderiv_padd RKg RKg_field). apply IH.
+Qed.
+
+Lemma Dk_comm k f : Dk k (D f) = D (Dk k f).
+Proof. revert f. induction k as [|k IH]; intros f; [reflexivity|]. cbn [Dk]. apply IH. Qed.
+
+Lemma pderiv_aux_S k g : pderiv_aux RKg (S k) g = pad g (pderiv_aux RKg k g).
+Proof.
+  revert k. induction g as [|a g IH]; intros k; [reflexivity|].
+  cbn [pderiv_aux padd]. rewrite IH. f_equal.
+  cbn [ofnat]. change (fmul RKg (fadd RKg (f1 RKg) (ofnat RKg k)) a = fadd RKg a (fmul RKg (ofnat RKg k) a)).
+  cbn [fmul fadd f1 RKg]. ring.
+Qed.
+
+(* D (y g) = g + y D g, as lists, for a non-empty list *)
+Lemma D_shift_cons a g : D (sh (a :: g)) = pad (a :: g) (sh (D (a :: g))).
+Proof.
+  unfold pshift, pderiv. cbn [pderiv_aux padd]. f_equal.
+  - cbn [ofnat]. cbn [fmul fadd f1 f0 RKg]. ring.
+  - apply pderiv_aux_S.
+Qed.
+
+Lemma length_pderiv_aux k f : length (pderiv_aux RKg k f) = length f.
+Proof. revert k. induction f as [|a f IH]; intros k; [reflexivity|]. cbn [pderiv_aux length]. now rewrite IH. Qed.
+
+Lemma length_D f : length (D f) = (length f - 1)%nat.
+Proof. destruct f as [|a f]; [reflexivity|]. cbn [pderiv length]. rewrite length_pderiv_aux. lia. Qed.
+
+Lemma length_Dk k f : length (Dk k f) = (length f - k)%nat.
+Proof.
+  revert f. induction k as [|k IH]; intros f; cbn [Dk]; [lia|]. rewrite IH, length_D. lia.
+Qed.
+
+Lemma Dk_vanish k f n : (length f <= k)%nat -> Ea n (Dk k f) = 0.
+Proof.
+  intros H. assert (E : Dk k f = []).
+  { apply length_zero_iff_nil. rewrite length_Dk. lia. }
+  rewrite E. reflexivity.
+Qed.
+
+(* D^k (y g) = y D^k g + k D^(k-1) g, seen through every Eaux *)
+Lemma Dk_shift k : forall g n,
+  Ea n (Dk k (sh g)) = Ea (S n) (Dk k g) + INR k * Ea n (Dk (k - 1) g).
+Proof.
+  induction k as [|k IH]; intros g n.
+  - cbn [Dk INR]. rewrite (Eaux_pshift RKg RKg_field). ring.
+  - cbn [Dk]. destruct g as [|a g].
+    + change (D (sh [])) with (@nil R). change (D []) with (@nil R). rewrite !Dk_nil. cbn [Eaux].
+      change (f0 RKg) with 0. ring.
+    + rewrite D_shift_cons, Dk_padd, (Eaux_padd RKg RKg_field), IH.
+      change (fadd RKg ?x ?y) with (x + y).
+      replace (S k - 1)%nat with k by lia.
+      destruct k as [|k'].
+      * cbn [INR Dk]. ring.
+      * replace (S k' - 1)%nat with k' by lia. cbn [Dk]. rewrite !S_INR. ring.
+Qed.
+
+Definition ek (k : nat) (f : list R) : R := Ea 0 (Dk k f).
+
+Lemma ek_shift k g : ek k (sh g) = v * ek (S k) g + INR k * ek (k - 1) g.
+Proof.
+  unfold ek. rewrite Dk_shift. f_equal.
+  rewrite <- (Eaux_pshift RKg RKg_field).
+  change (Ea 0 (sh (Dk k g))) with (E RKg v (sh (Dk k g))).
+  rewrite (stein RKg RKg_field). cbn [Dk]. rewrite Dk_comm. reflexivity.
+Qed.
+
+Lemma ek_cons k c h : ek k (c :: h) = (match k with O => c | _ => 0 end) + ek k (sh h).
+Proof.
+  unfold ek. destruct k as [|k].
+  - cbn [Dk]. unfold pshift. cbn [Eaux]. rewrite (mom_0 RKg).
+    change (fadd RKg ?x ?y) with (x + y). change (fmul RKg ?x ?y) with (x * y).
+    change (f0 RKg) with 0. change (f1 RKg) with 1. ring.
+  - cbn [Dk]. change (D (c :: h)) with (D (sh h)). ring.
+Qed.
+
+Lemma ek_vanish k f : (length f <= k)%nat -> ek k f = 0.
+Proof. apply Dk_vanish. Qed.
+
+(* ---- the Hankel form ---- *)
+Lemma hank_shift_r n f g : hank v n f (sh g) = hank v (S n) f g.
+Proof.
+  revert n. induction f as [|c f IH]; intros n; cbn [hank]; [reflexivity|].
+  rewrite IH, (Eaux_pshift RKg RKg_field). reflexivity.
+Qed.
+
+(* weights v^k / k! *)
+Fixpoint wk (k : nat) : R := match k with O => 1 | S k' => wk k' * v / INR (S k') end.
+
+Lemma wk_S k : INR (S k) * wk (S k) = v * wk k.
+Proof. cbn [wk]. field. apply not_0_INR. lia. Qed.
+
+Fixpoint rsumn (n : nat) (f : nat -> R) : R := match n with O => 0 | S n' => rsumn n' f + f n' end.
+
+Lemma rsumn_ext n f g : (forall k, (k < n)%nat -> f k = g k) -> rsumn n f = rsumn n g.
+Proof. induction n as [|n IH]; intros H; cbn [rsumn]; [reflexivity|]. rewrite IH by (intros; apply H; lia). rewrite H by lia. reflexivity. Qed.
+
+(* the exchange lemma on sequences *)
+Lemma exchange (a b : nat -> R) N :
+  rsumn (S N) (fun k => wk k * (v * a (S k) + INR k * a (k - 1)%nat) * b k)
+  - rsumn (S N) (fun k => wk k * a k * (v * b (S k) + INR k * b (k - 1)%nat))
+  = v * wk N * (a (S N) * b N - a N * b (S N)).
+Proof.
+  induction N as [|N IH].
+  - cbn [rsumn INR wk Nat.sub]. ring.
+  - cbn [rsumn] in *. replace (S N - 1)%nat with N by lia.
+    pose proof (wk_S N) as HW.
+    generalize dependent (rsumn N (fun k => wk k * (v * a (S k) + INR k * a (k - 1)%nat) * b k)).
+    generalize dependent (rsumn N (fun k => wk k * a k * (v * b (S k) + INR k * b (k - 1)%nat))).
+    intros s1 s2 IH.
+    (* INR (S N) * wk (S N) = v * wk N *)
+    assert (E1 : wk (S N) * (INR (S N) * a N) * b (S N) = v * wk N * a N * b (S N)).
+    { transitivity ((INR (S N) * wk (S N)) * a N * b (S N)); [ring|]. rewrite HW. ring. }
+    assert (E2 : wk (S N) * a (S N) * (INR (S N) * b N) = v * wk N * a (S N) * b N).
+    { transitivity ((INR (S N) * wk (S N)) * a (S N) * b N); [ring|]. rewrite HW. ring. }
+    nra.
+Qed.
+
+Theorem hank_identity f : forall g N, (length f <= N)%nat ->
+  hank v 0 f g = rsumn (S N) (fun k => wk k * ek k f * ek k g).
+Proof.
+  induction f as [|c h IH]; intros g N HN.
+  - cbn [hank]. symmetry. transitivity (rsumn (S N) (fun _ => 0)).
+    + apply rsumn_ext. intros k _. unfold ek. rewrite Dk_nil. cbn [Eaux]. change (f0 RKg) with 0. ring.
+    + clear. induction (S N) as [|n IH]; cbn [rsumn]; [reflexivity|]. rewrite IH. ring.
+  - cbn [hank]. rewrite <- hank_shift_r. rewrite (IH (sh g) N) by (cbn [length] in HN; lia).
+    pose proof (exchange (fun k => ek k h) (fun k => ek k g) N) as EX. cbn beta in EX.
+    rewrite (ek_vanish (S N) h) in EX by (cbn [length] in HN; lia).
+    rewrite (ek_vanish N h) in EX by (cbn [length] in HN; lia).
+    (* rewrite both sums into the exchange form *)
+    assert (S1 : rsumn (S N) (fun k => wk k * ek k h * ek k (sh g))
+                 = rsumn (S N) (fun k => wk k * ek k h * (v * ek (S k) g + INR k * ek (k - 1) g))).
+    { apply rsumn_ext. intros k _. now rewrite ek_shift. }
+    assert (S2 : rsumn (S N) (fun k => wk k * ek k (c :: h) * ek k g)
+                 = c * ek 0 g + rsumn (S N) (fun k => wk k * (v * ek (S k) h + INR k * ek (k - 1) h) * ek k g)).
+    { clear. induction N as [|N IHN].
+      - cbn [rsumn]. rewrite ek_cons, ek_shift. cbn [wk]. ring.
+      - cbn [rsumn] in *. rewrite IHN. rewrite (ek_cons (S N)), ek_shift. ring. }
+    rewrite S1, S2. change (Ea 0 g) with (ek 0 g).
+    replace (v * wk N * (0 * ek N g - 0 * ek (S N) g)) with 0 in EX by ring. lra.
+Qed.
+
+Lemma wk_nonneg k : 0 <= v -> 0 <= wk k.
+Proof.
+  intros Hv. induction k as [|k IH]; cbn [wk]; [lra|].
+  apply Rmult_le_pos; [nra|]. left. apply Rinv_0_lt_compat. apply lt_0_INR. lia.
+Qed.
+
+Theorem hankel_psd f : 0 <= v -> 0 <= hank v 0 f f.
+Proof.
+  intros Hv. rewrite (hank_identity f f (length f)) by lia.
+  induction (S (length f)) as [|n IH]; cbn [rsumn]; [lra|].
+  pose proof (wk_nonneg n Hv). pose proof (Rle_0_sqr (ek n f)) as Hs. unfold Rsqr in Hs. nra.
+Qed.
+End Hankel.
+
+(* ---- polynomials with the form E(f g) are a semi-inner-product space: bridge B3 PROVED for one
+        axis, one centre, one exponent pair ---- *)
+Section PolySpace.
+Variable v : R.
+Hypothesis Hv : 0 <= v.
+
+Lemma hank_sym f g : hank v 0 f g = hank v 0 g f.
+Proof.
+  rewrite (hank_identity v f g (Nat.max (length f) (length g))) by lia.
+  rewrite (hank_identity v g f (Nat.max (length f) (length g))) by lia.
+  apply rsumn_ext. intros k _. ring.
+Qed.
+
+Lemma hank_add_l n f g h : hank v n (padd RKg f g) h = hank v n f h + hank v n g h.
+Proof.
+  revert n g. induction f as [|a f IH]; intros n g; cbn [padd hank]; [ring|].
+  destruct g as [|b g]; cbn [padd hank]; [ring|]. rewrite IH.
+  change (fadd RKg a b) with (a + b). ring.
+Qed.
+
+Lemma hank_scal_l n c f h : hank v n (pscale RKg c f) h = c * hank v n f h.
+Proof.
+  revert n. induction f as [|a f IH]; intros n; cbn [pscale map hank]; [ring|].
+  fold (pscale RKg c f). rewrite IH. change (fmul RKg c a) with (c * a). ring.
+Qed.
+
+Definition poly_space : ipspace :=
+  mkIP (list R) (padd RKg) (pscale RKg) [] (hank v 0)
+       hank_sym (hank_add_l 0) (hank_scal_l 0) (fun _ => eq_refl) (fun f => hankel_psd v f Hv).
+
+(* the "overlap matrix" of any family of polynomials under the Gaussian moment functional *)
+Theorem one_centre_gram_psd {I : Type} (fam : I -> list R) : psd (fun a b => hank v 0 (fam a) (fam b)).
+Proof. exact (gram_psd poly_space fam). Qed.
+
+Theorem one_centre_schwarz f g : hank v 0 f g * hank v 0 f g <= hank v 0 f f * hank v 0 g g.
+Proof. exact (cauchy_schwarz poly_space f g). Qed.
+End PolySpace.
+
+(* the moments of the standard normal law (v = 1): 1, 0, 1, 0, 3;  E((1 + y)^2) = 2 *)
+Example hank_example : hank 1 0 [1; 1] [1; 1] = 2 /\ hank 1 0 [0; 0; 1] [0; 0; 1] = 3.
+Proof. unfold hank, Eaux, mom. cbn [mom2 fst snd ofnat RKg f0 f1 fadd fmul]. split; ring. Qed.
+
+(* ------------------------------------------------------------------------------------------ *)
+(* The whole property, with the analytic bridge B3 as an explicit HYPOTHESIS: if the four arrays  *)
+(* are Gram matrices (of the basis functions in L2, of their gradients, of the basis functions    *)
+(* under the weight q/|r-C|, of the pair densities under the Coulomb form) then every bound the    *)
+(* property states holds.                                                                          *)
+(* ------------------------------------------------------------------------------------------ *)
+Lemma psd_ext {I} (G M : I -> I -> R) : (forall a b, G a b = M a b) -> psd M -> psd G.
+Proof. intros H HM l. rewrite (qf_ext G M l H). apply HM. Qed.
+
+Theorem all_bounds_from_B3 (I : Type) (Sm Tm Vm : I -> I -> R) (G : I -> I -> I -> I -> R) (q : R) :
+  0 <= q ->
+  (exists (L2 : ipspace) (phi : I -> vec L2), forall a b, Sm a b = ip L2 (phi a) (phi b)) ->
+  (exists (H1 : ipspace) (dphi : I -> vec H1), forall a b, Tm a b = ip H1 (dphi a) (dphi b)) ->
+  (exists (W : ipspace) (phi : I -> vec W), forall a b, Vm a b = - q * ip W (phi a) (phi b)) ->
+  (exists (C : ipspace) (rho : I -> I -> vec C), forall a b c d, G a b c d = ip C (rho a b) (rho c d)) ->
+  (forall a, Sm a a = 1) ->
+  symm Sm /\ psd Sm /\ (forall a b, Rabs (Sm a b) <= 1) /\
+  symm Tm /\ psd Tm /\
+  symm Vm /\ nsd Vm /\
+  psd (fun p r : I * I => G (fst p) (snd p) (fst r) (snd r)) /\
+  (forall a b c d, G a b c d = G c d a b) /\
+  (forall a b, 0 <= G a b a b) /\
+  (forall a b c d, G a b c d * G a b c d <= G a b a b * G c d c d).
+Proof.
+  intros Hq [L2 [phi HS]] [H1 [dphi HT]] [W [wphi HV]] [C [rho HG]] Hdiag.
+  assert (Ssym : symm Sm) by (intros a b; rewrite !HS; apply ip_sym).
+  assert (Spsd : psd Sm) by (apply (psd_ext Sm (gram L2 phi)); [exact HS | apply gram_psd]).
+  repeat split.
+  - exact Ssym.
+  - exact Spsd.
+  - intros a b. apply psd_unit_diag_bound; auto.
+  - intros a b. rewrite !HT. apply ip_sym.
+  - apply (psd_ext Tm (gram H1 dphi)); [exact HT | apply gram_psd].
+  - intros a b. rewrite !HV. f_equal. apply ip_sym.
+  - intros l. rewrite (qf_ext Vm (fun a b => - q * gram W wphi a b) l HV). apply neg_charge_nsd. exact Hq.
+  - apply (psd_ext _ (eri_mat C rho)); [intros p r; apply HG | apply eri_pair_psd].
+  - intros a b c d. rewrite !HG. apply ip_sym.
+  - intros a b. rewrite HG. apply ip_pos.
+  - intros a b c d. rewrite !HG. apply (eri_schwarz C rho).
+Qed.
+
+(* the hypotheses are jointly satisfiable: one function, all four arrays from R^2 *)
+Example all_bounds_hypotheses_satisfiable :
+  exists (Sm Tm Vm : unit -> unit -> R) (G : unit -> unit -> unit -> unit -> R),
+  (exists (L2 : ipspace) (phi : unit -> vec L2), forall a b, Sm a b = ip L2 (phi a) (phi b)) /\
+  (exists (H1 : ipspace) (dphi : unit -> vec H1), forall a b, Tm a b = ip H1 (dphi a) (dphi b)) /\
+  (exists (W : ipspace) (phi : unit -> vec W), forall a b, Vm a b = - 2 * ip W (phi a) (phi b)) /\
+  (exists (C : ipspace) (rho : unit -> unit -> vec C), forall a b c d, G a b c d = ip C (rho a b) (rho c d)) /\
+  (forall a, Sm a a = 1).
+Proof.
+  exists (fun _ _ => 1), (fun _ _ => 4), (fun _ _ => -2), (fun _ _ _ _ => 1).
+  repeat split.
+  - exists R2, (fun _ => (1, 0)). intros. cbn. ring.
+  - exists R2, (fun _ => (0, 2)). intros. cbn. ring.
+  - exists R2, (fun _ => (1, 0)). intros. cbn. ring.
+  - exists R2, (fun _ _ => (1, 0)). intros. cbn. ring.
 Qed.
